@@ -118,11 +118,14 @@ class Kernel:
         return f'{base}_{self.counter}'
 
     def coqname(self, dotted):
-        return 'i_' + dotted.replace('.', '_').replace('[', '_').replace(']', '')
+        return 'i_' + dotted.replace('.', '_').replace('[', '_').replace(']', '').replace('()', '_call')
 
     def coq_type(self, kind):
         return {'num': 'T O', 'int': 'Z', 'bool': 'bool', 'str': 'string',
                 'list': 'list (T O)', 'list2': 'list (list (T O))', 'intlist': 'list Z'}[kind]
+
+    def bind_kind_ok(self, kind):
+        return kind in ('num', 'int', 'bool', 'str', 'list', 'list2', 'intlist', 'idx2')
 
     def get_input(self, dotted):
         if dotted in self.input_names:
@@ -313,9 +316,18 @@ class Kernel:
     def compare(self, node, env):
         if len(node.ops) != 1:
             raise Unsupported('chained comparison')
+        op = node.ops[0]
+        if isinstance(op, (ast.Is, ast.IsNot)) and isinstance(node.comparators[0], ast.Constant) \
+                and node.comparators[0].value is None:
+            d = self.dotted_of(node.left)
+            st = self.spec.get('static', {}).get(d)
+            if st == 'notnone':
+                return V('bool', 'false' if isinstance(op, ast.Is) else 'true')
+            if st == 'none':
+                return V('bool', 'true' if isinstance(op, ast.Is) else 'false')
+            raise Unsupported(f'None test on {d} (declare it in static)')
         a = self.expr(node.left, env)
         b = self.expr(node.comparators[0], env)
-        op = node.ops[0]
         if a.kind == 'str' or b.kind == 'str':
             if a.kind != b.kind:
                 raise Unsupported('str compared with non-str')
@@ -414,6 +426,18 @@ class Kernel:
                 return V('num', 'ofZ 0%Z')
             if name in IDENTITY_CALLS:
                 return self.expr(args[0], env)
+            if name == 'argwhere':
+                # np.argwhere(c != 0) on a 2-D coefficient table
+                a0 = args[0]
+                if isinstance(a0, ast.Compare) and isinstance(a0.ops[0], ast.NotEq) and \
+                        isinstance(a0.comparators[0], ast.Constant) and a0.comparators[0].value == 0:
+                    tbl = self.expr(a0.left, env)
+                    if tbl.kind == 'list2':
+                        return V('idx2', app('nonzero_idx', tbl.coq))
+                raise Unsupported('argwhere form')
+            if name == 'clip' and len(args) == 3:
+                v = self.to_num(self.expr(args[0], env)); lo = self.to_num(self.expr(args[1], env)); hi = self.to_num(self.expr(args[2], env))
+                return V('num', app('clip_', v, lo, hi))
             if name in ('maximum',):
                 a = self.expr(args[0], env); b = self.expr(args[1], env)
                 return V('num', f'(if ltb_ {paren(self.to_num(a))} {paren(self.to_num(b))} then {self.to_num(b)} else {self.to_num(a)})')
@@ -437,7 +461,7 @@ class Kernel:
             if fn.id == 'len':
                 v = self.expr(args[0], env)
                 if v.kind in ('list', 'list2', 'intlist'):
-                    return V('int', f'(Z.of_nat (length {paren(v.coq)}))')
+                    return V('int', f'(Z.of_nat (List.length {paren(v.coq)}))')
             if fn.id == 'sum':
                 v = self.expr(args[0], env)
                 if v.kind == 'list':
@@ -448,6 +472,13 @@ class Kernel:
         # ---- x.copy() etc ----
         if isinstance(fn, ast.Attribute) and fn.attr in IDENTITY_CALLS and not args:
             return self.expr(fn.value, env)
+        # ---- opaque calls: the result is an input of the kernel ----
+        opaque = self.spec.get('opaque_calls', {})
+        if dotted in opaque:
+            key = dotted + '()'
+            if key not in self.types:
+                self.types[key] = opaque[dotted]
+            return self.get_input(key)
         # ---- calls of other kernels ----
         calls = self.spec.get('calls', {})
         if dotted in calls:
@@ -466,11 +497,13 @@ class Kernel:
         for kw in node.keywords:
             bound[kw.arg] = kw.value
         argexprs = []
+        recv = self.dotted_of(node.func).rsplit('.', 1)[0] if '.' in self.dotted_of(node.func) else 'self'
+        self._last_recv = recv
         for dotted, kind, cname in callee.inputs:
             root = dotted.split('.')[0]
             rest = dotted.split('.')[1:]
             if root == 'self':
-                v = self.load_name(dotted, env)
+                v = self.load_name('.'.join([recv] + rest), env)
             elif root in bound:
                 a = bound[root]
                 if rest:
@@ -495,10 +528,15 @@ class Kernel:
         call = app('k_' + callee_name + ' O', *argexprs) if argexprs else 'k_' + callee_name + ' O'
         if callee.can_raise:
             self.can_raise = True
-            return ('raising', call, callee)
-        return self.unpack_call_result(call, callee, env)
+            return ('raising', call, callee, recv)
+        return self.unpack_call_result(call, callee, env, recv)
 
-    def unpack_call_result(self, call, callee, env):
+    def relabel(self, lab, recv):
+        if lab.startswith('self.') or lab == 'self':
+            return recv + lab[4:]
+        return lab
+
+    def unpack_call_result(self, call, callee, env, recv='self'):
         """callee result layout: (ret..., attr writes...) flattened tuple"""
         kinds = callee.out_layout       # list of (label, kind)
         if len(kinds) == 1:
@@ -513,7 +551,7 @@ class Kernel:
             if lab.startswith('ret'):
                 ret.append(v)
             else:
-                env[lab] = v
+                env[self.relabel(lab, recv)] = v
         if not ret:
             return V('none', 'tt')
         if len(ret) == 1:
@@ -582,6 +620,8 @@ class Kernel:
             for it in items:
                 if it.kind == 'tuple':
                     flat.extend(it.items)
+                elif it.kind in ('obj', 'none'):
+                    continue
                 else:
                     flat.append(it)
             for i, it in enumerate(flat):
@@ -680,6 +720,10 @@ class Kernel:
             return self.flush() + cont(env)
         if isinstance(s, ast.If):
             c = self.truthy(self.expr(s.test, env))
+            if c == 'true':
+                return self.block(list(s.body) + rest, env, k)
+            if c == 'false':
+                return self.block(list(s.orelse) + rest, env, k)
             pre = self.flush()
             if self.has_exit(s.body) or self.has_exit(s.orelse):
                 a = self.block(list(s.body) + rest, dict(env), k)
@@ -754,18 +798,18 @@ class Kernel:
         return self.expr(node, env)
 
     def raising_call(self, r, target, env, cont):
-        _, call, callee = r
+        _, call, callee, recv = r
         pre = self.flush()
         kinds = callee.out_layout
         names = [self.fresh('r') for _ in kinds]
-        pat = names[0] if len(names) == 1 else "'(" + ', '.join(names) + ')'
+        pat = '_' if not names else (names[0] if len(names) == 1 else "'(" + ', '.join(names) + ')')
         env = dict(env)
         ret = []
         for (lab, kd), n in zip(kinds, names):
             if lab.startswith('ret'):
                 ret.append(V(kd, n))
             else:
-                env[lab] = V(kd, n)
+                env[self.relabel(lab, recv)] = V(kd, n)
         rv = V('none', 'tt') if not ret else (ret[0] if len(ret) == 1 else V('tuple', items=ret))
         if target == '__ret__':
             env['__ret__'] = rv
@@ -839,6 +883,14 @@ class Kernel:
             ivar = self.fresh(s.target.id)
             pat = ivar
             loopvars = {s.target.id: V('int', ivar)}
+        elif isinstance(it, (ast.Name, ast.Attribute)) and self.expr(it, env).kind == 'idx2':
+            lst = self.expr(it, env)
+            if not (isinstance(s.target, ast.Tuple) and len(s.target.elts) == 2):
+                raise Unsupported('idx2 loop target')
+            iv, jv = self.fresh(s.target.elts[0].id), self.fresh(s.target.elts[1].id)
+            space = lst.coq
+            pat = f"'({iv}, {jv})"
+            loopvars = {s.target.elts[0].id: V('int', iv), s.target.elts[1].id: V('int', jv)}
         elif isinstance(it, (ast.Name, ast.Attribute)):
             lst = self.expr(it, env)
             if lst.kind == 'list' and isinstance(s.target, ast.Name):
@@ -932,6 +984,11 @@ class Kernel:
                 order.append(t)
         self.inputs = order
         argtxt = ' '.join(f'({n} : {self.coq_type(k)})' for _, k, n in self.inputs)
+        lay = self.out_layout or []
+        rty = ' * '.join(paren(self.coq_type(k)) if ' ' in self.coq_type(k) and k != 'num' else self.coq_type(k) for _, k in lay) if lay else 'unit'
+        if self.can_raise_static:
+            rty = f'option ({rty})'
+        argtxt += f' : {rty}' 
         self.coq_text = (f'(* {self.spec["file"]} :: {self.spec.get("cls", "")}.{self.spec["func"]} *)\n'
                          f'Definition k_{self.name} (O : Ops) {argtxt} :=\n'
                          + textwrap.indent(body, '  ') + '.\n')
@@ -947,7 +1004,7 @@ class Kernel:
 
 HEADER = '''(* GENERATED by tools/py2coq.py from /repo sources -- do not edit. *)
 From Coq Require Import ZArith List String Bool.
-From Coq Require PrimFloat.
+From Coq Require Import PrimFloat.
 From OV Require Import Ops.
 Import ListNotations.
 Set Implicit Arguments.
